@@ -30,7 +30,7 @@ def Out.bad : Out → Bool
 /-- a `*SchemaRef` as the traffic path sees it -/
 structure SchemaM where
   resolved : Bool       -- `.Value` non-nil here and in every nested reference (RefsResolved, C04 corollary)
-  unguarded : Bool      -- visiting recurses without bound: an unguarded reference cycle (F-C10-1) or an emptiness cycle (F-C10-5) is reachable
+  unguarded : Bool      -- visiting recurses without bound: an unguarded reference cycle is reachable (F-C10-1)
   deriving DecidableEq, Repr
 
 /-- what the decoders / the validator answer on the concrete bytes: arbitrary -/
@@ -89,7 +89,7 @@ def validateParameter (p : ParamM) (b : Bits) : Out :=
       | none => .err
       | some mt =>
         match mt.schema with
-        | none => .panic "defaultContentParameterDecoder: mt.Schema.Value with mt.Schema == nil"
+        | none => if b.decodeErr then .err else afterDecode p none b     -- no schema: decoded, not validated (b569d4d)
         | some s =>
           if !s.resolved then .panic "defaultContentParameterDecoder: paramSchema.Value"
           else if b.decodeErr then .err
@@ -236,11 +236,6 @@ def UnguardedRecursion (op : OpM) : Bool :=
   (match op.body with | none => false | some b => b.content.any MediaM.unguarded) ||
   op.responses.any (fun r => r.headers.any (fun h => match h.schema with | none => false | some s => s.unguarded) ||
                              r.content.any MediaM.unguarded)
-
-/-- F-C10-4: a parameter described by `content` whose (single, JSON) media type has no schema -/
-def ParamM.contentNoSchema (p : ParamM) : Bool :=
-  p.hasContent && p.contentLen == 1 && (match p.jsonMedia with | some m => m.schema.isNone | none => false)
-def ContentParamNoSchema (op : OpM) : Bool := op.params.any ParamM.contentNoSchema
 
 /-! ## `ConvertErrors` -/
 
